@@ -397,7 +397,7 @@ func Sweep(repo, overlayPath string) int {
 				continue
 			}
 			if s, ok := chk.SigOf(f); ok {
-				lines = append(lines, strings.Join([]string{s.Pkg, s.Recv, s.Name, strings.Join(s.PNames, ","), strings.Join(s.PTypes, ";"), strings.Join(s.RTypes, ";")}, "\t"))
+				lines = append(lines, strings.Join([]string{s.Pkg, s.Recv, s.Name, strings.Join(s.PNames, ","), strings.Join(s.PTypes, ";"), strings.Join(s.RTypes, ";"), strings.Join(s.Sels, ",")}, "\t"))
 			}
 		}
 		sort.Strings(lines)
